@@ -38,10 +38,10 @@ type interpreter struct {
 
 	ps      *pathState
 	env     *Env
-	pending []*pendingGo
-	goDepth int
+	sch     *sched
 
 	pkgInit   map[*ssa.Package]int // 0 = no, 1 = running, 2 = done
+	built     map[*ssa.Package]bool
 	depth     int
 	side      map[*value]interface{} // side tables for modelled objects (big.Int terms, mutex state...)
 	sideOrder []*value
@@ -295,7 +295,7 @@ func visitInstr(fr *frame, instr ssa.Instruction) continuation {
 
 	case *ssa.Go:
 		fn, args := prepareCall(fr, &instr.Call)
-		fr.i.pending = append(fr.i.pending, &pendingGo{fn: fn, args: args})
+		fr.i.spawn(fn, args)
 
 	case *ssa.MakeChan:
 		n := ps.concInt(fr.get(instr.Size), "channel size")
@@ -467,51 +467,64 @@ func (ps *pathState) allocViolation(fr *frame, n int) {
 
 func doSelect(fr *frame, instr *ssa.Select) value {
 	i := fr.i
-	for {
-		chosen := -1
+	ready := func() int {
 		for idx, st := range instr.States {
 			c := fr.get(st.Chan).(*chanT)
 			if st.Dir == types.RecvOnly {
 				if c.canRecv() {
-					chosen = idx
-					break
+					return idx
 				}
 			} else if c.canSend() {
-				chosen = idx
-				break
+				return idx
 			}
 		}
-		if chosen < 0 && instr.Blocking {
-			if i.runPending() {
-				continue
-			}
-			panic(blockedError{"select with no ready case"})
-		}
-		var recvVal value
-		recvOk := false
-		if chosen >= 0 {
-			st := instr.States[chosen]
-			c := fr.get(st.Chan).(*chanT)
-			if st.Dir == types.RecvOnly {
-				recvVal, recvOk = i.chanRecv(c)
-			} else {
-				i.chanSend(c, fr.get(st.Send))
-			}
-		}
-		r := tuple{chosen, recvOk}
-		for idx, st := range instr.States {
-			if st.Dir == types.RecvOnly {
-				var v value
-				if idx == chosen && recvOk {
-					v = recvVal
-				} else {
-					v = zero(st.Chan.Type().Underlying().(*types.Chan).Elem())
-				}
-				r = append(r, v)
-			}
-		}
-		return r
+		return -1
 	}
+	chosen := ready()
+	if chosen < 0 && instr.Blocking {
+		// register as a waiting receiver on every recv case so that unbuffered
+		// senders in other selects can see us
+		for _, st := range instr.States {
+			if st.Dir == types.RecvOnly {
+				if c := fr.get(st.Chan).(*chanT); c != nil {
+					c.recvWaiting++
+				}
+			}
+		}
+		i.yieldUntil(func() bool { return ready() >= 0 }, "select with no ready case")
+		for _, st := range instr.States {
+			if st.Dir == types.RecvOnly {
+				if c := fr.get(st.Chan).(*chanT); c != nil {
+					c.recvWaiting--
+				}
+			}
+		}
+		chosen = ready()
+	}
+	var recvVal value
+	recvOk := false
+	if chosen >= 0 {
+		st := instr.States[chosen]
+		c := fr.get(st.Chan).(*chanT)
+		if st.Dir == types.RecvOnly {
+			recvVal, recvOk = i.chanRecv(c)
+		} else {
+			i.chanSend(c, fr.get(st.Send))
+		}
+	}
+	r := tuple{chosen, recvOk}
+	for idx, st := range instr.States {
+		if st.Dir == types.RecvOnly {
+			var v value
+			if idx == chosen && recvOk {
+				v = recvVal
+			} else {
+				v = zero(st.Chan.Type().Underlying().(*types.Chan).Elem())
+			}
+			r = append(r, v)
+		}
+	}
+	return r
 }
 
 // prepareCall determines the function value and argument values for a
@@ -613,10 +626,13 @@ func callSSA(i *interpreter, caller *frame, callpos token.Pos, fn *ssa.Function,
 			}
 		}
 	}
+	if pkg := fnPkg(fn); pkg != nil && !i.built[pkg] && pkg.Pkg.Path() != "reflect" {
+		// Build() is idempotent and blocks until a concurrent build by another
+		// worker has finished (never read a half-built function).
+		pkg.Build()
+		i.built[pkg] = true
+	}
 	if fn.Blocks == nil {
-		if pkg := fnPkg(fn); pkg != nil {
-			pkg.Build()
-		}
 		if fn.Blocks == nil {
 			panic(engineError("unsupported external function (no body, no model): " + funcKey(fn) + "\n" + caller.stack()))
 		}
